@@ -783,15 +783,10 @@ func (r *Reconciler) reconcileApply(ctx context.Context, proposal *configapi.Pro
 					failureType = configapi.Failure_INTERNAL
 				}
 
-				// Update the Configuration's applied index to indicate this Proposal was applied even though it failed.
-				log.Infof("Updating applied index for Configuration '%s' to %d in term %d", config.ID, proposal.TransactionIndex, config.Status.Mastership.Term)
-				config.Status.Applied.Index = proposal.TransactionIndex
-				if err := r.updateConfigurationStatus(ctx, config); err != nil {
-					log.Warnf("Failed reconciling Transaction %d Proposal to target '%s'", proposal.TransactionIndex, proposal.TargetID, err)
-					return controller.Result{}, err
-				}
-
-				// Add the failure to the proposal's apply phase state.
+				// Add the failure to the proposal's apply phase state first. The Configuration's applied index is
+				// moved past the Proposal when the FAILED Proposal is reconciled again (below): had the index been
+				// moved first and the Proposal update then failed, a retry would find the applied index at this
+				// Proposal and take it for applied.
 				log.Warnf("Failed applying Proposal '%s'", proposal.ID, err)
 				proposal.Status.Phases.Apply.State = configapi.ProposalApplyPhase_FAILED
 				proposal.Status.Phases.Apply.Failure = &configapi.Failure{
@@ -803,7 +798,7 @@ func (r *Reconciler) reconcileApply(ctx context.Context, proposal *configapi.Pro
 				if err := r.updateProposalStatus(ctx, proposal); err != nil {
 					return controller.Result{}, err
 				}
-				return controller.Result{}, nil
+				return controller.Result{Requeue: controller.NewID(proposal.ID)}, nil
 			}
 		}
 		log.Debugf("Received SetResponse %+v", setResponse)
@@ -842,7 +837,32 @@ func (r *Reconciler) reconcileApply(ctx context.Context, proposal *configapi.Pro
 			return controller.Result{}, err
 		}
 		return controller.Result{}, nil
-	case configapi.ProposalApplyPhase_APPLIED, configapi.ProposalApplyPhase_FAILED:
+	case configapi.ProposalApplyPhase_FAILED:
+		// Update the Configuration's applied index to indicate this Proposal was applied even though it failed.
+		configID := configuration.NewID(proposal.TargetID, proposal.TargetType, proposal.TargetVersion)
+		config, err := r.configurations.Get(ctx, configID)
+		if err != nil {
+			if !errors.IsNotFound(err) {
+				log.Errorf("Failed fetching Configuration '%s'", configID, err)
+				return controller.Result{}, err
+			}
+			return controller.Result{}, nil
+		}
+		if config.Status.Applied.Index < proposal.TransactionIndex {
+			log.Infof("Updating applied index for Configuration '%s' to %d in term %d", config.ID, proposal.TransactionIndex, config.Status.Mastership.Term)
+			config.Status.Applied.Index = proposal.TransactionIndex
+			if err := r.updateConfigurationStatus(ctx, config); err != nil {
+				log.Warnf("Failed reconciling Transaction %d Proposal to target '%s'", proposal.TransactionIndex, proposal.TargetID, err)
+				return controller.Result{}, err
+			}
+		}
+		if proposal.Status.NextIndex != 0 {
+			return controller.Result{
+				Requeue: controller.NewID(proposalstore.NewID(proposal.TargetID, proposal.Status.NextIndex)),
+			}, nil
+		}
+		return controller.Result{}, nil
+	case configapi.ProposalApplyPhase_APPLIED:
 		if proposal.Status.NextIndex != 0 {
 			return controller.Result{
 				Requeue: controller.NewID(proposalstore.NewID(proposal.TargetID, proposal.Status.NextIndex)),
